@@ -71,6 +71,16 @@ static void case_trap(Tape &t, Ctx &cx)
     a_trajtrap c;
     memset(&c, 0, sizeof(c));
     double T = a_trajtrap_gen(&c, vm, ac, de, p0, p1, v0, v1);
+    {
+        // C++ member interface of the same structure: same arguments, same object, same values
+        a_trajtrap w;
+        memset(&w, 0, sizeof(w));
+        double Tw = w.gen(vm, ac, de, p0, p1, v0, v1);
+        VP_CHECK(cx, memcmp(&Tw, &T, 8) == 0 && memcmp(&w, &c, sizeof(c)) == 0, "trap:member_gen_differs", "the C++ member gen() and a_trajtrap_gen() disagree (durations %.17g / %.17g)", Tw, T);
+        double xq = T > 0 ? T * 0.37 : 0.5;
+        double g[3] = {w.pos(xq), w.vel(xq), w.acc(xq)}, h[3] = {a_trajtrap_pos(&c, xq), a_trajtrap_vel(&c, xq), a_trajtrap_acc(&c, xq)};
+        VP_CHECK(cx, memcmp(g, h, sizeof(g)) == 0, "trap:member_eval_differs", "member pos/vel/acc differ from the C functions at x=%.17g", xq);
+    }
     if (!(T > 0))
     {
         cx.label(L_RETURN_NONPOS);
@@ -196,6 +206,15 @@ static void case_bell(Tape &t, Ctx &cx)
     a_trajbell c;
     memset(&c, 0, sizeof(c));
     double T = a_trajbell_gen(&c, jm, am, vm, p0, p1, v0, v1);
+    {
+        a_trajbell w;
+        memset(&w, 0, sizeof(w));
+        double Tw = w.gen(jm, am, vm, p0, p1, v0, v1);
+        VP_CHECK(cx, memcmp(&Tw, &T, 8) == 0 && memcmp(&w, &c, sizeof(c)) == 0, "bell:member_gen_differs", "the C++ member gen() and a_trajbell_gen() disagree (durations %.17g / %.17g)", Tw, T);
+        double xq = T > 0 ? T * 0.37 : 0.5;
+        double g[4] = {w.pos(xq), w.vel(xq), w.acc(xq), w.jer(xq)}, h[4] = {a_trajbell_pos(&c, xq), a_trajbell_vel(&c, xq), a_trajbell_acc(&c, xq), a_trajbell_jer(&c, xq)};
+        VP_CHECK(cx, memcmp(g, h, sizeof(g)) == 0, "bell:member_eval_differs", "member pos/vel/acc/jer differ from the C functions at x=%.17g", xq);
+    }
     if (!(T > 0))
     {
         cx.label(L_RETURN_NONPOS);
